@@ -4,6 +4,7 @@ import Mathlib.Analysis.Calculus.Deriv.Mul
 import Mathlib.Analysis.Calculus.Deriv.Pow
 import Mathlib.Analysis.Calculus.Deriv.Add
 import Mathlib.Analysis.Calculus.Deriv.Slope
+import Mathlib.Analysis.Calculus.Deriv.Comp
 import Mathlib.Tactic.Ring
 import Mathlib.Tactic.Linarith
 import Mathlib.Tactic.FieldSimp
@@ -104,6 +105,134 @@ theorem affine_actuator_vel_deriv (g0 g1 g2 b0 b1 b2 len u v : ℝ) :
   rw [hf]
   have h := ((hasDerivAt_id v).const_mul (b2 + g2 * u)).const_add ((g0 + g1 * len) * u + (b0 + b1 * len))
   simpa [affineActuatorForceVel] using h
+
+/-! ### the muscle gain (`mjd_actuator_vel`, gaintype MUSCLE) -/
+
+/-- force-velocity curve of the muscle model as coded -/
+noncomputable def FV (y p8 my V : ℝ) : ℝ :=
+  if V ≤ -1 then 0 else if V ≤ 0 then (V + 1) * (V + 1) else if V ≤ y then p8 - (y - V) * (y - V) / my else p8
+noncomputable def dFV (y my V : ℝ) : ℝ :=
+  if V ≤ -1 then 0 else if V ≤ 0 then 2 * V + 2 else if V ≤ y then (-2 * V + 2 * y) / my else 0
+
+theorem FV_deriv (y p8 my V : ℝ) (h1 : V ≠ -1) (h2 : V ≠ 0) (h3 : V ≠ y) :
+    HasDerivAt (FV y p8 my) (dFV y my V) V := by
+  unfold dFV
+  by_cases c1 : V ≤ -1
+  · have hlt : V < -1 := lt_of_le_of_ne c1 h1
+    rw [if_pos c1]
+    have e : FV y p8 my =ᶠ[nhds V] fun _ => (0:ℝ) := by
+      filter_upwards [Iio_mem_nhds hlt] with x hx
+      have hx' : x ≤ -1 := le_of_lt hx
+      simp [FV, hx']
+    exact (hasDerivAt_const V (0:ℝ)).congr_of_eventuallyEq e
+  · rw [if_neg c1]
+    have g1 : -1 < V := not_le.mp c1
+    by_cases c2 : V ≤ 0
+    · have hlt : V < 0 := lt_of_le_of_ne c2 h2
+      rw [if_pos c2]
+      have e : FV y p8 my =ᶠ[nhds V] fun x => (x + 1) * (x + 1) := by
+        filter_upwards [Ioo_mem_nhds g1 hlt] with x hx
+        simp [FV, not_le.mpr hx.1, le_of_lt hx.2]
+      have hd : HasDerivAt (fun x : ℝ => (x + 1) * (x + 1)) (2 * V + 2) V := by
+        have hd0 := ((hasDerivAt_id' V).add_const (1:ℝ)).mul ((hasDerivAt_id' V).add_const (1:ℝ))
+        have hv : 2 * V + 2 = 1 * (V + 1) + (V + 1) * 1 := by ring
+        rw [hv]; exact hd0
+      exact hd.congr_of_eventuallyEq e
+    · rw [if_neg c2]
+      have g2 : 0 < V := not_le.mp c2
+      by_cases c3 : V ≤ y
+      · have hlt : V < y := lt_of_le_of_ne c3 h3
+        rw [if_pos c3]
+        have e : FV y p8 my =ᶠ[nhds V] fun x => p8 - (y - x) * (y - x) / my := by
+          filter_upwards [Ioo_mem_nhds g2 hlt] with x hx
+          have : ¬ x ≤ -1 := by linarith [hx.1]
+          simp [FV, this, not_le.mpr hx.1, le_of_lt hx.2]
+        have hd : HasDerivAt (fun x : ℝ => p8 - (y - x) * (y - x) / my) ((-2 * V + 2 * y) / my) V := by
+          have hyx : HasDerivAt (fun x : ℝ => y - x) (-1) V := (hasDerivAt_id' V).const_sub y
+          have hd0 := ((hyx.mul hyx).div_const my).const_sub p8
+          have hv : (-2 * V + 2 * y) / my = -(((-1) * (y - V) + (y - V) * (-1)) / my) := by ring
+          rw [hv]; exact hd0
+        exact hd.congr_of_eventuallyEq e
+      · rw [if_neg c3]
+        have g3 : y < V := not_le.mp c3
+        have e : FV y p8 my =ᶠ[nhds V] fun _ => p8 := by
+          filter_upwards [Ioi_mem_nhds g3, Ioi_mem_nhds g2] with x hx hx0
+          have a1 : ¬ x ≤ -1 := by have : (0:ℝ) < x := hx0; linarith
+          have a2 : ¬ x ≤ 0 := not_le.mpr hx0
+          have a3 : ¬ x ≤ y := not_le.mpr hx
+          simp [FV, a1, a2, a3]
+        exact (hasDerivAt_const V p8).congr_of_eventuallyEq e
+
+noncomputable def minv : ℝ := (MjNum.ofSci 10000000000000001 true 31 : ℝ)
+noncomputable def clampMin (x : ℝ) : ℝ := if x < minv then minv else x
+
+theorem mju_max_minv (x : ℝ) : mju_max minv x = clampMin x := by
+  unfold mju_max clampMin
+  by_cases h : x ≤ minv
+  · have h' : @LE.le ℝ MjNum.toLE x minv := h
+    rw [if_pos h']
+    by_cases h2 : x < minv
+    · rw [if_pos h2]
+    · rw [if_neg h2]; exact le_antisymm (not_lt.mp h2) h
+  · have h' : ¬ @LE.le ℝ MjNum.toLE x minv := h
+    rw [if_neg h', if_neg (fun hh => h (le_of_lt hh))]
+
+noncomputable def mK (len lr0 lr1 acc0 p0 p1 p2 p3 p4 p5 : ℝ) : ℝ :=
+  let force := if p2 < 0 then p3 / clampMin acc0 else p2
+  let L0 := (lr1 - lr0) / clampMin (p1 - p0)
+  let L := p0 + (len - lr0) / clampMin L0
+  (-force) * mju_muscleGainLength L p4 p5
+noncomputable def mC (lr0 lr1 p0 p1 p6 : ℝ) : ℝ := clampMin ((lr1 - lr0) / clampMin (p1 - p0) * p6)
+
+theorem muscleGain_eq (len v lr0 lr1 acc0 p0 p1 p2 p3 p4 p5 p6 p8 : ℝ) :
+    mju_muscleGain len v lr0 lr1 acc0 p0 p1 p2 p3 p4 p5 p6 p8 =
+      mK len lr0 lr1 acc0 p0 p1 p2 p3 p4 p5 * FV (p8 - 1) p8 (clampMin (p8 - 1)) (v / mC lr0 lr1 p0 p1 p6) := by
+  simp only [mju_muscleGain, mK, mC, FV, clampMin, minv, real_ofInt, real_lt_iff, real_le_iff, decide_eq_true_eq,
+    Int.cast_zero, Int.cast_one, Int.cast_neg]
+  rfl
+
+theorem muscleGain_vel_eq (len v lr0 lr1 acc0 p0 p1 p2 p3 p4 p5 p6 p8 : ℝ) :
+    mjd_muscleGain_vel len v lr0 lr1 acc0 p0 p1 p2 p3 p4 p5 p6 p8 =
+      mK len lr0 lr1 acc0 p0 p1 p2 p3 p4 p5 * dFV (p8 - 1) (clampMin (p8 - 1)) (v / mC lr0 lr1 p0 p1 p6) /
+        mC lr0 lr1 p0 p1 p6 := by
+  have e := mju_max_minv
+  simp only [minv] at e
+  simp only [mjd_muscleGain_vel, e, mK, mC, dFV, real_ofInt, real_lt_iff, real_le_iff, decide_eq_true_eq,
+    Int.cast_zero, Int.cast_one, Int.cast_neg, Int.cast_ofNat]
+  rfl
+
+/-- **the muscle gain derivative**: the generated `mjd_muscleGain_vel` is the velocity derivative of the generated
+`mju_muscleGain` at every velocity whose normalised value `V = vel / max(mjMINVAL, L0 vmax)` is not one of the three
+breakpoints `-1, 0, fvmax - 1` of the force-velocity curve (all parameter values, including the mjMINVAL clamps and the
+`force < 0` scaling branch) -/
+theorem muscleGain_vel_deriv (len vel lr0 lr1 acc0 p0 p1 p2 p3 p4 p5 p6 p8 : ℝ)
+    (h1 : vel / mC lr0 lr1 p0 p1 p6 ≠ -1) (h2 : vel / mC lr0 lr1 p0 p1 p6 ≠ 0)
+    (h3 : vel / mC lr0 lr1 p0 p1 p6 ≠ p8 - 1) :
+    HasDerivAt (fun v => mju_muscleGain len v lr0 lr1 acc0 p0 p1 p2 p3 p4 p5 p6 p8)
+      (mjd_muscleGain_vel len vel lr0 lr1 acc0 p0 p1 p2 p3 p4 p5 p6 p8) vel := by
+  have hf : (fun v => mju_muscleGain len v lr0 lr1 acc0 p0 p1 p2 p3 p4 p5 p6 p8) =
+      fun v => mK len lr0 lr1 acc0 p0 p1 p2 p3 p4 p5 *
+        FV (p8 - 1) p8 (clampMin (p8 - 1)) (v / mC lr0 lr1 p0 p1 p6) :=
+    funext fun v => muscleGain_eq len v lr0 lr1 acc0 p0 p1 p2 p3 p4 p5 p6 p8
+  rw [hf, muscleGain_vel_eq]
+  have hdiv : HasDerivAt (fun v : ℝ => v / mC lr0 lr1 p0 p1 p6) (1 / mC lr0 lr1 p0 p1 p6) vel :=
+    (hasDerivAt_id' vel).div_const _
+  have hcomp := (FV_deriv (p8 - 1) p8 (clampMin (p8 - 1)) _ h1 h2 h3).comp vel hdiv
+  have hfin := hcomp.const_mul (mK len lr0 lr1 acc0 p0 p1 p2 p3 p4 p5)
+  have hv : mK len lr0 lr1 acc0 p0 p1 p2 p3 p4 p5 * dFV (p8 - 1) (clampMin (p8 - 1)) (vel / mC lr0 lr1 p0 p1 p6) /
+      mC lr0 lr1 p0 p1 p6 = mK len lr0 lr1 acc0 p0 p1 p2 p3 p4 p5 *
+        (dFV (p8 - 1) (clampMin (p8 - 1)) (vel / mC lr0 lr1 p0 p1 p6) * (1 / mC lr0 lr1 p0 p1 p6)) := by ring
+  rw [hv]
+  exact hfin
+
+theorem minv_lt_one : minv < 1 := by
+  simp only [minv, real_ofSci]; norm_num
+
+example : (1:ℝ) / 2 / mC 0 1 0 1 1 ≠ -1 ∧ (1:ℝ) / 2 / mC 0 1 0 1 1 ≠ 0 ∧ (1:ℝ) / 2 / mC 0 1 0 1 1 ≠ 2 - 1 := by
+  have h : mC 0 1 0 1 1 = 1 := by
+    have := minv_lt_one
+    simp only [mC, clampMin, sub_zero, if_neg (not_lt.mpr (le_of_lt this)), div_one, mul_one]
+  rw [h]; norm_num
 
 /-! ### `mj_getState` / `mj_setState` -/
 
